@@ -817,12 +817,17 @@ def g_query(verifier, vc, K=4, L=3, drop=(), pool=False):
     return q, labels
 
 
-def g_search(verifier, ob, K=4, L=3, timeout_s=30):
-    """Try to refute an undischarged obligation in finite scope.  -> dict or None"""
+def g_search(verifier, ob, K=4, L=3, timeout_s=30, max_vcs=2):
+    """Try to refute an undischarged obligation in finite scope.  -> dict or None
+    At most max_vcs undischarged path VCs are tried (a regressed obligation may have dozens)."""
     from . import solve
+    tried = 0
     for vc in ob.vcs:
         if vc.result is not None and vc.result[0] == 'unsat':
             continue
+        if tried >= max_vcs:
+            break
+        tried += 1
         # first with names/ids/string arguments restricted to a small pool of texts (fast), then unrestricted
         qp, labels = g_query(verifier, vc, K, L, pool=True)
         if '(declare-fun str_lower (String) String)' in qp:
